@@ -1,3 +1,5 @@
+import Driver.Dap4
+import Driver.Dmr
 import Driver.IterData
 import Driver.Seq
 import Driver.Slice
